@@ -167,10 +167,13 @@ def run_chunk(args):
 # minimisation
 
 
-def violates(mod, scn, invariant):
+def violates(mod, scn, invariant, skip_known=None):
     """(result, violation item) if executing scn violates `invariant`, else None.
     Invariants a module lists in FLAKY_INVARIANTS state that the *library* is not
-    reproducible; by nature they may need more than one execution to show."""
+    reproducible; by nature they may need more than one execution to show.
+    skip_known = (known findings, property): violations matching a listed known finding
+    do not count (a new violation must not be confused with a known one of the same
+    invariant while minimising or replaying)."""
     attempts = 5 if invariant in getattr(mod, "FLAKY_INVARIANTS", ()) else 1
     for _ in range(attempts):
         try:
@@ -181,11 +184,13 @@ def violates(mod, scn, invariant):
             return None
         for v in res["violations"]:
             if v["invariant"] == invariant:
+                if skip_known is not None and match_known(skip_known[0], skip_known[1], v) is not None:
+                    continue
                 return res, v
     return None
 
 
-def minimise(mod, scn, invariant, max_exec=400, max_s=30.0):
+def minimise(mod, scn, invariant, max_exec=400, max_s=30.0, skip_known=None):
     t0 = time.time()
     n_exec = 0
     best = scn
@@ -197,7 +202,7 @@ def minimise(mod, scn, invariant, max_exec=400, max_s=30.0):
                 break
             n_exec += 1
             cand = json.loads(json.dumps(cand))
-            if violates(mod, cand, invariant) is not None:
+            if violates(mod, cand, invariant, skip_known) is not None:
                 best = cand
                 improved = True
                 break
@@ -463,13 +468,14 @@ def run_check(prop, tier, verif_seed, workers=None, runs=None, budget_s=None):
             continue
         handled_inv[inv] = len(lst)
         scn = v["scenario"]
+        sk = (known, prop)
         if time.time() - t0 < soft * 3:
-            small, n_exec = minimise(mod, scn, inv)
+            small, n_exec = minimise(mod, scn, inv, skip_known=sk)
         else:
             small, n_exec = scn, 0
-        got = violates(mod, small, inv)
+        got = violates(mod, small, inv, sk)
         if got is None:  # minimiser must never lose the violation
-            small, got = scn, violates(mod, scn, inv)
+            small, got = scn, violates(mod, scn, inv, sk)
         if got is None:
             print(f"HARNESS-ERROR unreplayable: {inv} at run index {v['index']} did not reproduce in-process")
             exit_code = max(exit_code, 2)
@@ -587,20 +593,21 @@ def cmd_replay(path, quiet=False):
             return 1
         print(f"NOT-REPRODUCED property={prop} invariant={rep['invariant']} (all executions agree)")
         return 0
-    got = violates(mod, rep["scenario"], rep["invariant"])
+    got = violates(mod, rep["scenario"], rep["invariant"], (load_known(), prop))
     if got is None:
+        got_known = violates(mod, rep["scenario"], rep["invariant"])
+        if got_known is not None:
+            res, item = got_known
+            k = match_known(load_known(), prop, item)
+            print(f"KNOWN-FINDING: property={prop} {k['id']}: {k['summary'][:200]}")
+            print(f"REPRODUCED-AS-KNOWN property={prop} invariant={rep['invariant']} digest_match={res['digest'] == rep.get('expected_digest')}")
+            return 0
         res = execute(mod, rep["scenario"])
         others = sorted({v["invariant"] for v in res["violations"]})
         print(f"NOT-REPRODUCED property={prop} invariant={rep['invariant']} (other invariants failing: {others})")
         return 0
     res, item = got
     same = res["digest"] == rep.get("expected_digest")
-    k = match_known(load_known(), prop, item)
-    if k is not None:
-        # the replayed violation is a listed known finding on this tree: say so, do not alarm
-        print(f"KNOWN-FINDING: property={prop} {k['id']}: {k['summary'][:200]}")
-        print(f"REPRODUCED-AS-KNOWN property={prop} invariant={rep['invariant']} digest_match={same}")
-        return 0
     print(f"REPRODUCED property={prop} invariant={rep['invariant']} digest_match={same}")
     if not quiet:
         print(f"  detail: {item.get('detail')}")
